@@ -649,7 +649,7 @@ def model_outcome(model, s):
     return ("error", ans[:200])
 
 
-NFA_SAMPLE = 12
+NFA_SAMPLE = 1
 
 
 def antlr_outcome(s):
